@@ -153,6 +153,7 @@ impl KString {
 thread_local! {
     static BUILDS_OK: Cell<u64> = const { Cell::new(0) };
     static BUILDS_SLOW: Cell<u64> = const { Cell::new(0) };
+    static PEEL_RETRY: Cell<u64> = const { Cell::new(0) };
     static ABANDONED: Cell<u64> = const { Cell::new(0) };
     static MEMBERS: Cell<u64> = const { Cell::new(0) };
     static PROBES: Cell<u64> = const { Cell::new(0) };
@@ -232,6 +233,9 @@ fn run_filter<F>(
     bump(&BUILDS_OK, 1);
     if kst.passes() > SOFT_ATTEMPTS {
         bump(&BUILDS_SLOW, 1);
+    }
+    if s.group == "peel-retry" && kst.passes() > 1 {
+        bump(&PEEL_RETRY, 1);
     }
     c.check("len", len(&f) == n, || format!("filter.len() = {} but {} keys were inserted; {}; {}", len(&f), n, input, progress()));
     c.check("hash_bits", hash_bits(&f) == b, || format!("filter.hash_bits() = {} but {} bits were requested (word: {} bits); {}", hash_bits(&f), b, word_bits, input));
@@ -562,6 +566,28 @@ fn main() {
         }
     }
 
+    // 2b. key counts at which the unsharded fuse graph (peeling, no lazy Gaussian
+    //     elimination) is known to fail its first attempts on this code base: the
+    //     retry after an incomplete peeling must be taken (release builds only;
+    //     note c08_counters.peel_regime_builds_that_retried says whether it was)
+    if !debug {
+        for v in 0..VARIANTS.len() {
+            let var = &VARIANTS[v];
+            if !var.name.contains("NoShards") || !var.int_keys {
+                continue;
+            }
+            let ns: &[usize] = if thorough { &[126_191, 126_288, 126_359, 126_385, 126_401, 126_450, 126_482, 126_499, 126_520] } else { &[126_359, 126_401, 126_450, 126_499] };
+            for (i, &n) in ns.iter().enumerate() {
+                for (j, seed) in [0u64, 0, 1].into_iter().enumerate() {
+                    let b = if var.boxed { var.bits } else { [8, var.bits, 11][j] };
+                    let cfg = Cfg { seed, low_mem: [None, Some(true), Some(false)][(i + j) % 3], hint: [Hint::Absent, Hint::Exact][(i + j) % 2], ..Cfg::default() };
+                    let s = mk(&mut r, "peel-retry", n, b, 0, cfg);
+                    run(&mut ctx, v, s);
+                }
+            }
+        }
+    }
+
     // 3. random rounds: random width, size, configuration; rate judged when n >= 1000
     let rounds = ctx.scale(5, 8_000, 100_000);
     for _ in 0..rounds {
@@ -587,8 +613,9 @@ fn main() {
     }
 
     let counters = format!(
-        "{{\"builds_ok\":{},\"slow_convergence_builds_over_64_attempts\":{},\"abandoned_after_a_no_progress_violation\":{},\"members_checked\":{},\"non_member_probes\":{},\"rate_bands_judged\":{},\"first_samples_outside_the_band_retested\":{}}}",
+        "{{\"builds_ok\":{},\"peel_regime_builds_that_retried\":{},\"slow_convergence_builds_over_64_attempts\":{},\"abandoned_after_a_no_progress_violation\":{},\"members_checked\":{},\"non_member_probes\":{},\"rate_bands_judged\":{},\"first_samples_outside_the_band_retested\":{}}}",
         BUILDS_OK.with(|c| c.get()),
+        PEEL_RETRY.with(|c| c.get()),
         BUILDS_SLOW.with(|c| c.get()),
         ABANDONED.with(|c| c.get()),
         MEMBERS.with(|c| c.get()),
